@@ -73,6 +73,20 @@ def _noncontig(t):
     return pp.LieTensor(v, ltype=lt_) if lt_ is not None else v
 
 
+def _permuted(t):
+    """Same values and shape, strides of a different dimension order (first and last dimension swapped in memory);
+    vectors become a column of a two-column matrix."""
+    lt_ = t.ltype if isinstance(t, pp.LieTensor) else None
+    raw = t.tensor() if lt_ is not None else t
+    if not isinstance(raw, torch.Tensor) or raw.dim() == 0 or raw.numel() == 0 or raw.is_sparse or raw.layout != torch.strided:
+        return t
+    if raw.dim() == 1:
+        v = torch.stack([raw, raw.flip(0)], dim=-1)[..., 0]
+    else:
+        v = raw.transpose(0, -1).contiguous().transpose(0, -1)
+    return pp.LieTensor(v, ltype=lt_) if lt_ is not None else v
+
+
 def _map_args(args, kwargs, f):
     def m(a):
         if isinstance(a, (torch.Tensor, pp.LieTensor)):
@@ -122,23 +136,29 @@ def run(ck, prop, calls, monitor="repeat"):
         ck.ratio(monitor, c["label"] + "/fresh", _same(ref, out), 1.0, c["entry"], "result_on_a_reused_object_differs_from_a_fresh_object",
                  {"call": c["label"]})
         ck.mark(f"{monitor}/fresh-object")
-    # round 3, non-contiguous arguments
+    # round 3, non-contiguous arguments (strided slices of a larger buffer, then permuted strides)
     for c, ref in zip(calls, r1):
         if ref is None or c.get("random") or c.get("no_layout"):
             continue
-        a2, k2 = _map_args(c["args"], c.get("kwargs", {}), _noncontig)
-        before = [x.clone() for x in _flat(list(a2) + list(k2.values()))]
-        try:
-            out = c["fn"](*a2, **k2)
-        except Exception as e:  # noqa
-            ck.note_add("repeat_noncontiguous_argument_raised/" + c["label"].split("[")[0], 1)
-            continue
-        ck.count(monitor, c["label"] + "/layout", key=(prop, c["label"], "layout"))
-        ck.ratio(monitor, c["label"] + "/layout", _same(out, ref), 1.0, c["entry"], "result_depends_on_memory_layout_of_the_arguments", {"call": c["label"]})
-        after = _flat(list(a2) + list(k2.values()))
-        ck.check(all(torch.equal(torch.nan_to_num(x), torch.nan_to_num(y)) for x, y in zip(before, after)), monitor, c["label"] + "/layout", c["entry"],
-                 "argument_modified", {"call": c["label"]})
-        ck.mark(f"{monitor}/layout")
+        for lname, lay in (("layout", _noncontig), ("layout-permuted", _permuted)):
+            a2, k2 = _map_args(c["args"], c.get("kwargs", {}), lay)
+            before = [x.clone() for x in _flat(list(a2) + list(k2.values()))]
+            try:
+                out = c["fn"](*a2, **k2)
+            except Exception as e:  # noqa
+                # the same call with contiguous arguments succeeded in round 1
+                ck.note_add("repeat_noncontiguous_argument_raised/" + c["label"].split("[")[0], 1)
+                ck.count(monitor, c["label"] + "/" + lname, key=(prop, c["label"], lname))
+                ck.check(False, monitor, c["label"] + "/" + lname, c["entry"], "call_raises_only_for_a_different_memory_layout_of_the_arguments",
+                         {"call": c["label"], "layout": lname, "error": repr(e)[:200]})
+                continue
+            ck.count(monitor, c["label"] + "/" + lname, key=(prop, c["label"], lname))
+            ck.ratio(monitor, c["label"] + "/" + lname, _same(out, ref), 1.0, c["entry"], "result_depends_on_memory_layout_of_the_arguments",
+                     {"call": c["label"], "layout": lname})
+            after = _flat(list(a2) + list(k2.values()))
+            ck.check(all(torch.equal(torch.nan_to_num(x), torch.nan_to_num(y)) for x, y in zip(before, after)), monitor, c["label"] + "/" + lname, c["entry"],
+                     "argument_modified", {"call": c["label"]})
+            ck.mark(f"{monitor}/layout")
     # round 4: the floating-point tensor arguments require grad (grad mode on) / the call runs under no_grad: same values
     for c, ref in zip(calls, r1):
         if ref is None or c.get("random") or c.get("no_autograd"):
